@@ -132,6 +132,7 @@ func cmdWorker(args []string) int {
 	x := uint64(*seed)*0x1000193 + uint64(*idx)*0x9E3779B97F4A7C15 + 12345
 	replayDir := filepath.Join(verifDir, "replays")
 	seenSig := map[string]bool{}
+	kfw := loadKnown()
 	for wo.Runs < *maxRuns && time.Since(t0).Seconds() < *budget {
 		rs := int64(sim.SplitMix64(&x) >> 1)
 		res := sim.RunSeed(prop, rs, *tier, false)
@@ -161,22 +162,27 @@ func cmdWorker(args []string) int {
 			}
 			wo.Samples = append(wo.Samples, sampleOut{Seed: rs, Config: res.Cfg, Intents: ins, TotalIntents: len(res.Intents), Blocks: res.Blocks})
 		}
-		if res.Viol != nil {
-			sig := res.Viol.Signature()
+		for _, viol := range res.Viols {
+			sig := viol.Signature()
 			if seenSig[sig] {
 				continue
 			}
 			seenSig[sig] = true
+			if isKnown(kfw, prop, sig) {
+				// a recorded finding: its replay is committed under replays/known; no need to minimise it again
+				wo.Violations = append(wo.Violations, violationOut{Signature: sig, Message: viol.Message, Replay: "", Seed: rs})
+				continue
+			}
 			min := res.Intents
-			if res.Viol.Oracle != "deadlock" { // each deadlock replay leaks a hung app and costs the watchdog
+			if viol.Oracle != "deadlock" { // each deadlock replay leaks a hung app and costs the watchdog
 				min = sim.Minimise(prop, res.Cfg, res.Intents, sig, 150)
 			}
-			path, err := sim.WriteReplay(replayDir, res, min)
+			path, err := sim.WriteReplay(replayDir, res, viol, min)
 			if err != nil {
 				fmt.Fprintln(os.Stderr, "cannot write replay:", err)
 				return 2
 			}
-			wo.Violations = append(wo.Violations, violationOut{Signature: sig, Message: res.Viol.Message, Replay: path, Seed: rs})
+			wo.Violations = append(wo.Violations, violationOut{Signature: sig, Message: viol.Message, Replay: path, Seed: rs})
 		}
 	}
 	wo.WallS = time.Since(t0).Seconds()
@@ -205,6 +211,11 @@ func cmdReplay(args []string) int {
 	if logOn {
 		for _, l := range res.Log {
 			fmt.Println(l)
+		}
+	}
+	for _, v := range res.Viols {
+		if v.Signature() == rf.Signature {
+			res.Viol = v
 		}
 	}
 	if res.Viol == nil {
@@ -236,6 +247,15 @@ type knownFinding struct {
 type knownFile struct {
 	Findings []knownFinding `json:"findings"`
 	Fixed    []string       `json:"fixed"`
+}
+
+func isKnown(kf knownFile, prop, sig string) bool {
+	for _, k := range kf.Findings {
+		if k.Property == prop && strings.HasPrefix(sig, k.Match) {
+			return true
+		}
+	}
+	return false
 }
 
 func loadKnown() knownFile {
@@ -363,7 +383,8 @@ func cmdCheck(args []string) int {
 			continue
 		}
 		if v, ok := knownHit[k.ID]; ok {
-			fmt.Printf("KNOWN-FINDING: property=%s %s [%s] (seen this run, replay=%s)\n", prop, k.Description, k.ID, v.Replay)
+			_ = v
+			fmt.Printf("KNOWN-FINDING: property=%s %s [%s] (seen again in this run; replay=%s)\n", prop, k.Description, k.ID, k.Replay)
 		} else {
 			fmt.Printf("KNOWN-FINDING: property=%s %s [%s] (not re-encountered in this run)\n", prop, k.Description, k.ID)
 		}
@@ -373,6 +394,7 @@ func cmdCheck(args []string) int {
 	seenSig := map[string]bool{}
 	for _, v := range unknown {
 		if seenSig[v.Signature] {
+			os.Remove(v.Replay) // one replay file per signature is enough
 			continue
 		}
 		seenSig[v.Signature] = true
